@@ -127,10 +127,13 @@ class IncrementalPublisher:
 
     _ids: dict[DeliveryGroup | ItemStream, str]
     _next_id: int
+    _failed_early: dict[DeliveryGroup, list[tuple[DeliveryGroup, BaseException]]]
 
     def __init__(self) -> None:
         self._ids = {}
         self._next_id = 0
+        # nested groups that failed before they could be announced, by parent
+        self._failed_early = {}
 
     def build_response(
         self,
@@ -289,12 +292,28 @@ class IncrementalPublisher:
                         cast("Sequence[ItemStream]", event.new_streams),
                     )
                 )
+            # Nested groups that had already failed are announced now, together
+            # with their failure, so that their errors are not lost.
+            for failed_group, error in self._failed_early.pop(group, ()):
+                context.pending.extend(self._to_pending_results([failed_group], []))
+                context.completed.append(
+                    CompletedResult(
+                        self._ids.pop(failed_group), [ensure_graphql_error(error)]
+                    )
+                )
         elif isinstance(event, GroupFailureEvent):
             group = cast("DeliveryGroup", event.group)
+            self._failed_early.pop(group, None)
             id_ = self._ids.get(group)
             if id_ is None:
                 # A group that failed before it was started has never been announced
-                # as pending, so there is nothing to report as completed.
+                # as pending, so it cannot be reported as completed yet. A nested
+                # group is reported when its parent group completes successfully.
+                parent = group.parent
+                if parent is not None:
+                    self._failed_early.setdefault(parent, []).append(
+                        (group, event.error)
+                    )
                 return
             context.completed.append(
                 CompletedResult(id_, [ensure_graphql_error(event.error)])
